@@ -361,6 +361,9 @@ class NetworkGraph(AbstractBaseIR):
         data = dict()
         for source, target, idx in edges:
             edge = self.edges[(source, target, idx)]
+            # one entry per source VARIABLE: two variables of one node projecting to the same target are separate inputs
+            source_var = edge.get('source_var')
+            source = (source, source_var if isinstance(source_var, str) else None)
             if source not in data:
                 data[source] = dict()
             for key in keys:
@@ -716,7 +719,7 @@ class NetworkGraph(AbstractBaseIR):
         # step 1: collect all inputs
         weights, source_indices, target_indices, sources = [], [], [], []
         edge_irs, edge_var_maps = [], []
-        for snode, sinfo in inputs.items():
+        for (snode, _), sinfo in inputs.items():
             weights.append(sinfo['weight'])
             source_indices.append(sinfo['source_idx'])
             target_indices.append(sinfo['target_idx'])
